@@ -207,11 +207,16 @@ class Frame:
             # the name of the block we're in, otherwise None.
             self.block: str | None = None
 
+            # whether break and continue are possible, the frame is part of
+            # the body of a loop in the same function.
+            self.in_loop = False
+
         else:
             self.symbols = Symbols(parent.symbols, level=level)
             self.require_output_check = parent.require_output_check
             self.buffer = parent.buffer
             self.block = parent.block
+            self.in_loop = parent.in_loop
 
         # a toplevel frame is the root + soft frames such as if conditions.
         self.toplevel = False
@@ -684,6 +689,7 @@ class CodeGenerator(NodeVisitor):
 
         # macros are delayed, they never require output checks
         frame.require_output_check = False
+        frame.in_loop = False
         frame.symbols.analyze_node(node)
         self.writeline(f"{self.func('macro')}({', '.join(args)}):", node)
         self.indent()
@@ -1221,6 +1227,7 @@ class CodeGenerator(NodeVisitor):
     def visit_For(self, node: nodes.For, frame: Frame) -> None:
         loop_frame = frame.inner()
         loop_frame.loop_frame = True
+        loop_frame.in_loop = True
         test_frame = frame.inner()
         else_frame = frame.inner()
 
@@ -2027,9 +2034,15 @@ class CodeGenerator(NodeVisitor):
         self.write(self.derive_context(frame))
 
     def visit_Continue(self, node: nodes.Continue, frame: Frame) -> None:
+        if not frame.in_loop:
+            self.fail("'continue' outside of a loop", node.lineno)
+
         self.writeline("continue", node)
 
     def visit_Break(self, node: nodes.Break, frame: Frame) -> None:
+        if not frame.in_loop:
+            self.fail("'break' outside of a loop", node.lineno)
+
         self.writeline("break", node)
 
     def visit_Scope(self, node: nodes.Scope, frame: Frame) -> None:
